@@ -6,3 +6,5 @@ import "github.com/ozontech/seq-db/zzverif/vsync"
 
 // WG is the WaitGroup type frac.Active.Append expects under the sched overlay (sync -> vsync).
 type WG = vsync.WaitGroup
+
+func waitIndexed(wg *WG) { wg.Wait() }
